@@ -414,7 +414,12 @@ def install(E: Any) -> None:
     E.methods["set.issubset"] = m_set_issubset
 
     def m_str_join(self: Any, obj: Any, n: ast.Call, st: Any) -> Any:
-        xs = self.as_seq(self.expr(n.args[0], st), st)
+        arg = self.expr(n.args[0], st)
+        if isinstance(arg.ty, SetTy) and arg.ty.elem == STR:
+            # joining a set: some string determined by the separator and the set (the iteration order is unspecified)
+            fs = self.pre.func("str_join_set", self.pre.Str, self.sort(arg.ty), self.pre.Str)
+            return V(fs(obj.t, arg.t), STR)
+        xs = self.as_seq(arg, st)
         f = self.pre.func("str_join", self.pre.Str, self.sort(SeqTy(STR)), self.pre.Str)
         return V(f(obj.t, xs.t), STR)
     E.methods["str.join"] = m_str_join
